@@ -329,6 +329,17 @@ pub fn minimise(scen: &Scenario, v: &Violation, budget: Duration) -> (Scenario, 
             try_apply(&mut cx, &mut cur, |s| s.sched = SchedSpec::RoundRobin);
         }
         for t in 0..cur.threads.len() {
+            if !cur.threads[t].preempt_hit.is_empty() {
+                if !try_apply(&mut cx, &mut cur, |s| s.threads[t].preempt_hit.clear()) {
+                    let mut i = cur.threads[t].preempt_hit.len();
+                    while i > 0 {
+                        i -= 1;
+                        try_apply(&mut cx, &mut cur, |s| {
+                            s.threads[t].preempt_hit.remove(i);
+                        });
+                    }
+                }
+            }
             if !cur.threads[t].preempt_sites.is_empty() {
                 if !try_apply(&mut cx, &mut cur, |s| s.threads[t].preempt_sites.clear()) {
                     let mut i = cur.threads[t].preempt_sites.len();
